@@ -4,6 +4,7 @@ package main
 
 import (
 	"encoding/json"
+	"fmt"
 	"os"
 	"path/filepath"
 	"strings"
@@ -41,6 +42,63 @@ func TestVerifConfigLengths(t *testing.T) {
 			ev["err"] = err.Error()
 		} else {
 			ev["got_min"], ev["got_max"], ev["got_preview"] = conf.Recorder.MinSecs, conf.Recorder.MaxSecs, conf.Recorder.PreviewSecs
+		}
+		enc.Encode(ev)
+	}
+}
+
+// TestVerifMotionConfig: the motion settings as they reach the detector (ParseConfig + LoadMotionConfig(model), the
+// path handleConn takes on every connection) next to what the generated config.toml says.
+func TestVerifMotionConfig(t *testing.T) {
+	in, outp := os.Getenv("VERIF_SCRIPT"), os.Getenv("VERIF_OUT")
+	if in == "" || outp == "" {
+		t.Skip("driver only")
+	}
+	b, _ := os.ReadFile(in)
+	var all struct {
+		Configs []struct {
+			Toml  string
+			Model string
+			Set   map[string]string
+		} `json:"configs"`
+	}
+	if err := json.Unmarshal(b, &all); err != nil {
+		t.Fatal(err)
+	}
+	fo, _ := os.Create(outp)
+	defer fo.Close()
+	enc := json.NewEncoder(fo)
+	bs := func(v bool) string {
+		if v {
+			return "true"
+		}
+		return "false"
+	}
+	for i, c := range all.Configs {
+		dir := t.TempDir()
+		txt := strings.ReplaceAll(strings.ReplaceAll(c.Toml, "{OUT}", filepath.Join(dir, "out")), "{SOCK}", filepath.Join(dir, "frames.sock"))
+		os.WriteFile(filepath.Join(dir, "config.toml"), []byte(txt), 0644)
+		ev := map[string]interface{}{"ev": "motioncfg", "i": i, "err": "", "pairs": [][]string{}}
+		conf, err := ParseConfig(dir)
+		if err == nil {
+			err = conf.LoadMotionConfig(c.Model)
+		}
+		if err != nil {
+			ev["err"] = err.Error()
+		} else {
+			m := conf.Motion
+			got := map[string]string{
+				"dynamic-threshold": bs(m.DynamicThreshold), "temp-thresh": fmt.Sprint(m.TempThresh),
+				"temp-thresh-min": fmt.Sprint(m.TempThreshMin), "temp-thresh-max": fmt.Sprint(m.TempThreshMax),
+				"delta-thresh": fmt.Sprint(m.DeltaThresh), "count-thresh": fmt.Sprint(m.CountThresh),
+				"frame-compare-gap": fmt.Sprint(m.FrameCompareGap), "use-one-diff-only": bs(m.UseOneDiffOnly),
+				"trigger-frames": fmt.Sprint(m.TriggerFrames), "warmer-only": bs(m.WarmerOnly), "edge-pixels": fmt.Sprint(m.EdgePixels),
+			}
+			pairs := [][]string{}
+			for k, v := range c.Set {
+				pairs = append(pairs, []string{k, v, got[k]})
+			}
+			ev["pairs"] = pairs
 		}
 		enc.Encode(ev)
 	}
